@@ -580,4 +580,24 @@ theorem maxEntropy_eq_raw' {xs : List Val} {nums qs U : List Rat} {L : Option (R
         rw [← hall]; simpa using hc
       simp only [hc, hnone, hnum, hq, this, Bool.false_eq_true, if_false]
 
+/-- for `bootstrap`'s own limits `(0, max x)` the binding condition is exactly: non-negative data and
+`x₀ + x₁/2 ≤ max x` for the two smallest values -/
+theorem limitsBind_boot_iff (xs : List Rat) (h2 : 2 ≤ xs.length) :
+    limitsBind (sortQ xs) 0 (bootLimits xs).2 = true ↔
+      0 ≤ (sortQ xs).getD 0 0 ∧ (sortQ xs).getD 0 0 + (sortQ xs).getD 1 0 / 2 ≤ (bootLimits xs).2 := by
+  have hmax := bootLimits_snd xs (by omega)
+  have hl : (sortQ xs).length = xs.length := sortQ_length xs
+  have z1 := zAt_mid (sx := sortQ xs) 0 (bootLimits xs).2 (i := 1) (by omega) (by omega)
+  have zl := zAt_mid (sx := sortQ xs) 0 (bootLimits xs).2 (i := xs.length - 1) (by omega) (by omega)
+  have s1 := sortedD_sortQ xs 0 (xs.length - 1 - 1) (by omega) (by omega)
+  have s2 := sortedD_sortQ xs 0 (xs.length - 1) (by omega) (by omega)
+  simp only [Nat.sub_self] at z1
+  simp only [limitsBind, hl, z1, zl, Bool.and_eq_true, decide_eq_true_eq]
+  rw [hmax]
+  constructor
+  · rintro ⟨⟨⟨a, _⟩, c⟩, _⟩
+    exact ⟨a, by linarith⟩
+  · rintro ⟨a, b⟩
+    exact ⟨⟨⟨a, le_refl _⟩, by linarith⟩, by linarith⟩
+
 end Bermuda.Resample
